@@ -39,6 +39,14 @@ def run(tier, seed, replay=None):
                                                                                            len(rep["divergences"]), rep.get("extra")))
         ck.add_report(rep)
         shutil.rmtree(r.workdir, ignore_errors=True)
+    # syncs of the same publisher queueing up: each sync's own (scoped) block hook sees exactly that sync's blocks
+    from props import subfam
+    lines, wd = subfam.run_family(ck, binary, "scoped", 200 if tier == "quick" else 4000, seed, strict=False)
+    shutil.rmtree(wd, ignore_errors=True)
+    ck.cov["scoped_hook_calls_validated"] = sum(1 for ln in lines if '"hook"' in ln)
+    ck.cov["schedules_rule"] = ("family 'scoped' of the Subscriber schedules (gate scheduler): explicit syncs carrying their own block hook queue up behind announce-triggered syncs "
+                                "and behind each other for the same publisher; TLC validates on the trace (SubscriberTrace.tla) that every block-hook call is made by the sync "
+                                "holding the publisher's lock and goes to the hook of that very sync")
     ck.cov["rule"] = ("one real sync per exported configuration: real ad / entry-chunk chain, real ipnisync.Publisher (alternating plain-HTTP mount and "
                       "libp2p-HTTP discovery) whose read opener logs every block served, real Subscriber with exactly the configured options, pre-stored "
                       "blocks and latest-synced value; compared: hook sequence, set of served blocks, stored blocks, returned head, latest-synced, "
